@@ -14,6 +14,7 @@ import (
 	"github.com/go-git/go-git/v5"
 	"github.com/go-git/go-git/v5/plumbing"
 	"github.com/monshunter/goat/pkg/utils"
+	"github.com/monshunter/goat/pkg/verifhook"
 	"golang.org/x/mod/modfile"
 	"gopkg.in/yaml.v3"
 )
@@ -509,6 +510,7 @@ func InitWithConfig(filename string, cfg *Config) error {
 	}
 
 	// create config file
+	verifhook.Boundary("write", filename)
 	file, err := os.Create(filename)
 	if err != nil {
 		return fmt.Errorf("failed to create config file: %w", err)
